@@ -18,18 +18,22 @@ import (
 
 //go:norace
 func (s *Sim) addTimer(h *time.Timer, d time.Duration, f func(), site string) *Task {
-	if len(s.tasks) >= cap(s.tasks) || s.Stats.TimersArmed >= 24 {
+	if s.Stats.TimersArmed >= 200 {
+		return nil
+	}
+	idx, yields := s.newSlot()
+	if idx < 0 {
 		return nil
 	}
 	var p [2]int
 	if err := syscall.Pipe(p[:]); err != nil {
 		return nil
 	}
-	t := &Task{ID: len(s.tasks), Name: "timer@" + site, rfd: p[0], wfd: p[1], fn: f,
-		state: stTimerWait, timer: true, handle: h, deadline: clockNow.Add(d)}
+	t := &Task{ID: idx, Name: "timer@" + site, rfd: p[0], wfd: p[1], fn: f,
+		state: stTimerWait, timer: true, handle: h, deadline: clockNow.Add(d), localYield: yields}
 	// PCT: somewhere among the others, decided by the run's own PRNG
 	t.prio = s.rng.Intn(len(s.tasks) + s.pol.PCTDepth + 2)
-	s.tasks = append(s.tasks, t) // within capacity: no runtime call
+	s.place(idx, t)
 	s.Stats.TimersArmed++
 	return t
 }
